@@ -1,356 +1,123 @@
 /-
-  C03 helper lemmas, part 4: the simulation proof.  One case lemma per adapter (`chainCase`,
-  `flatInitCase`, `flatRunCase`, `wrapCase`, `appDeadCase`, `idxSCase`), construction
-  (`flatB`, `wrapB`, `stepB`), all related states (`stepA`), simultaneous induction (`simAB`).
+  C03 helper lemmas, part 6: construction of every form (`stepB`), all related states (`stepA`),
+  simultaneous induction (`simAB`), consumers of `k` items.
 -/
-import JaqVerif.Lemmas.C03Sim
+import JaqVerif.Lemmas.C03Fold
 namespace Jaq.C03
 variable {D : List T}
 
-theorem nextR_flat_cur_done {cur w c' w1 src k res} (h : NextR D cur w (none, c', w1))
-    (hn : NextR D (.flat src k .nil) w1 res) : NextR D (.flat src k cur) w res := by
-  obtain ⟨m1, h⟩ := h; obtain ⟨m3, hn⟩ := hn
-  refine ⟨m1 + m3 + 1 + 1, ?_⟩
-  have hn' := next_mono_le hn (by omega : m3 ≤ m1 + m3 + 1 + 1)
-  rw [next_succ] at hn' ⊢
-  have hnil : next D (m1 + m3 + 1) .nil w1 = some (none, .nil, w1) :=
-    next_mono_le (n := 1) (m := m1 + m3 + 1) rfl (by omega)
-  simp only [nextStep, hnil] at hn'
-  simp only [nextStep, next_mono_le h (by omega : m1 ≤ m1 + m3 + 1)]
-  exact hn'
+/-! ### construction of `reduce`/`foreach` -/
 
-theorem mkR_call_none {i c v w} (hb : D[i]? = none) : MkR D (.call i) c v w (.nil, w) :=
-  ⟨1, by rw [mk_succ]; simp only [mkStep, hb]⟩
-theorem mkR_tcall (i : Nat) (c : Ctx) (v : Val) (w : World) :
-    MkR D (.tcall i) c v w (.chain .nil (.call i) c v, w) := ⟨1, by rw [mk_succ]; rfl⟩
-theorem mkR_leaf {t c v w res} (h : mkStep D (mk D 0) (next D 0) t c v w = some res) : MkR D t c v w res :=
-  ⟨1, by rw [mk_succ]; exact h⟩
+theorem force_fold_ini_done {m kind upd ctx cells src ended} {ini : Th} {w w1}
+    (h : force D m ini w = some (.done, w1)) :
+    force D (m + 1) (.fold kind upd ctx cells src ended ini .nil) w = some (.done, w1) := by
+  rw [force_succ]; simp only [forceStep, h]
 
-def A (D : List T) (n : Nat) : Prop := ∀ it wi th ws r, Rel D it wi th ws → th.pureIdx = true →
-  force D n th ws = some r → Matches D r it wi
-def B (D : List T) (n : Nat) : Prop := ∀ t c v w r, t.pureIdx = true → force D n (.run t c v) w = some r →
-  ∃ it w', MkR D t c v w (it, w') ∧ Matches D r it w'
+theorem force_fold_ini_exn {m kind upd ctx cells src ended} {ini : Th} {w x th' w1}
+    (h : force D m ini w = some (.yield x th', w1)) (hx : x.val? = none) :
+    force D (m + 1) (.fold kind upd ctx cells src ended ini .nil) w =
+      some (.yield x (.fold kind upd ctx cells src ended th' .nil), w1) := by
+  rw [force_succ]; simp only [forceStep, h, hx]
 
-/-! ### the head of a compound residual is forced first -/
+theorem force_bind_done {m} {a : Th} {k : K} {w w1} (h : force D m a w = some (.done, w1)) :
+    force D (m + 1) (.bind a k) w = some (.done, w1) := by
+  rw [force_succ]; simp only [forceStep, h]
 
-syntax "head_tac" : tactic
-set_option hygiene false in
-macro_rules
-  | `(tactic| head_tac) => `(tactic|
-      (cases n with
-       | zero => simp [force] at h
-       | succ n =>
-         rw [force_succ] at h
-         simp only [forceStep] at h
-         cases h1 : force D n a w with
-         | none => simp [h1] at h
-         | some r1 => exact ⟨r1, force_mono D _ _ _ _ h1⟩))
+theorem force_bind_exn {m} {a : Th} {k : K} {w x a' w1} (h : force D m a w = some (.yield x a', w1)) (hx : x.val? = none) :
+    force D (m + 1) (.bind a k) w = some (.yield x (.bind a' k), w1) := by
+  rw [force_succ]; simp only [forceStep, h, hx]
 
-theorem force_app_head {n a b w r} (h : force D n (.app a b) w = some r) : ∃ r1, force D n a w = some r1 := by
-  head_tac
-theorem force_bind_head {n a k w r} (h : force D n (.bind a k) w = some r) : ∃ r1, force D n a w = some r1 := by
-  head_tac
-theorem force_one_head {n a w r} (h : force D n (.one a) w = some r) : ∃ r1, force D n a w = some r1 := by
-  head_tac
-theorem force_orElse_head {n a t c v w r} (h : force D n (.orElse a t c v) w = some r) :
-    ∃ r1, force D n a w = some r1 := by
-  head_tac
-theorem force_wrapC_head {n s a w r} (hs : s.ready = true) (h : force D n (.wrapC s a) w = some r) :
-    ∃ r1, force D n a w = some r1 := by
-  cases n with
-  | zero => simp [force] at h
-  | succ n =>
-    rw [force_succ] at h
-    simp only [forceStep, hs, if_true] at h
-    cases h1 : force D n a w with
-    | none => simp [h1] at h
-    | some r1 => exact ⟨r1, force_mono D _ _ _ _ h1⟩
+theorem wrapProj_plain {kind : FoldKind} (hk : kind ≠ .foreachP) (p : T) (c : Ctx) (it : It) : wrapProj kind p c it = it := by
+  cases kind <;> simp [wrapProj] at hk ⊢
 
-/-! ### one step of the simulation per adapter, given the induction hypotheses at fuel `n` -/
-
-theorem chainCase {n : Nat} (hA : A D n) (hB : B D n) {a wa a' wa' t c v r}
-    (hrel : Rel D a wa a' wa') (hp : (Th.app a' (.run t c v)).pureIdx = true)
-    (hf : force D (n + 1) (.app a' (.run t c v)) wa' = some r) : Matches D r (.chain a t c v) wa := by
-  simp only [Th.pureIdx, Bool.and_eq_true] at hp
-  rw [force_succ] at hf
-  simp only [forceStep] at hf
-  split at hf
-  · simp at hf
-  · rename_i w1 heq
-    obtain ⟨a2, hn⟩ := hA _ _ _ _ _ hrel hp.1 heq
-    obtain ⟨b, w2, hmk, hmb⟩ := hB _ _ _ _ _ hp.2 hf
-    exact Matches.transfer (fun res h3 => nextR_chain_done hn hmk h3) hmb
-  · rename_i x a'' w1 heq
-    obtain ⟨a2, hn, hs⟩ := hA _ _ _ _ _ hrel hp.1 heq
-    simp only [Option.some.injEq] at hf
-    subst hf
-    exact ⟨.chain a2 t c v, nextR_chain_yield t c v hn, Sync.chain hs⟩
-
-theorem appDeadCase {n : Nat} (hA : A D n) {it wi th ws rest r}
-    (hrel : Rel D it wi th ws) (hd : Dead D rest) (hp : (Th.app th rest).pureIdx = true)
-    (hf : force D (n + 1) (.app th rest) ws = some r) : Matches D r it wi := by
-  simp only [Th.pureIdx, Bool.and_eq_true] at hp
-  rw [force_succ] at hf
-  simp only [forceStep] at hf
-  split at hf
-  · simp at hf
-  · rename_i w1 heq
-    have hm := hA _ _ _ _ _ hrel hp.1 heq
-    obtain ⟨k, hk⟩ := hd w1
-    have := force_det hf hk
+theorem foldB_plain (hD : DPure D) {n : Nat} (hA : A D n) (hB : B D n) {kind : FoldKind} {xs init upd p : T} {c v w r}
+    (hk : kind ≠ .foreachP) (hxl : xs.lazySrc = true) (hpx : xs.pureIdx = true) (hpi : init.pureIdx = true)
+    (hpu : upd.pureIdx = true) (hc : c.pure = true)
+    (hf : force D n (.fold kind upd c [] (.run xs c v) false (.run init c v) .nil) w = some r) :
+    ∃ it w', MkR D (.fold kind xs init upd p) c v w (it, w') ∧ Matches D r it w' := by
+  have hFP : FoldPure upd c (.run xs c v) (.run init c v) := ⟨hpu, hc, run_pure hpx hc, run_pure hpi hc⟩
+  obtain ⟨r1, h1⟩ := force_fold_ini_head hf
+  obtain ⟨a, ib, w3, hxs, hst, hmk, hcase⟩ := foldB (kind := kind) (xs := xs) hB hxl hpi hc h1
+  have hsrc : SyncG D .src a (.run xs c v) := SyncG.srcFresh (fun w => ⟨3, hxs w⟩)
+  rcases hcase with ⟨hu, hrel⟩ | ⟨hu, ib', w4, hn, rfl⟩ | ⟨hu, x, ib', w4, th', hn, rfl, hdead⟩
+  · refine ⟨_, w3, mkR_fold hxs hst hmk (mkFoldInitR_slow w3 hu), ?_⟩
+    rw [wrapProj_plain hk]
+    exact hA _ _ _ _ _ hrel (hFP.fold _ _ _ rfl) hf
+  · have := force_det hf (force_fold_ini_done (kind := kind) (upd := upd) (ctx := c) (cells := [])
+      (src := .run xs c v) (ended := false) h1)
     subst this
-    exact hm
-  · rename_i x t1 w1 heq
-    obtain ⟨it', hn, hs⟩ := hA _ _ _ _ _ hrel hp.1 heq
-    simp only [Option.some.injEq] at hf
-    subst hf
-    exact ⟨it', hn, Sync.appDead hs hd⟩
+    exact ⟨.nil, w4, mkR_fold hxs hst hmk (mkFoldInitR_none hu hn), .nil, nextR_nil _⟩
+  · cases hx : x.val? with
+    | none =>
+      have := force_det hf (force_fold_ini_exn (kind := kind) (upd := upd) (ctx := c) (cells := [])
+        (src := .run xs c v) (ended := false) h1 hx)
+      subst this
+      exact ⟨.once x, w4, mkR_fold hxs hst hmk (mkFoldInitR_exn hu hn hx), .nil, nextR_once _ _,
+        SyncG.dead (dead_foldEmpty hdead)⟩
+    | some i =>
+      have hxi : x = .ok i := by cases x <;> simp [Item.val?] at hx; subst hx; rfl
+      subst hxi
+      refine ⟨_, w4, mkR_fold hxs hst hmk (mkFoldInitR_ok hu hn hx), ?_⟩
+      rw [wrapProj_plain hk]
+      cases n with
+      | zero => simp [force] at hf
+      | succ n' => exact foldFastCase hD (lowerA hA) hsrc ⟨_, h1⟩ hdead hFP hf
 
-theorem wrapCase (hD : DPure D) {n : Nat} (hA : A D n) (hB : B D n) {s : Wr} {a wa a' wa' r} (hs : s.ready = true)
-    (hrel : Rel D a wa a' wa') (hp : (Th.wrapC s a').pureIdx = true)
-    (hf : force D (n + 1) (.wrapC s a') wa' = some r) : Matches D r (.wrap s a) wa := by
-  simp only [Th.pureIdx, Bool.and_eq_true] at hp
-  rw [force_succ] at hf
-  simp only [forceStep, hs, if_true] at hf
-  split at hf
-  · simp at hf
-  · rename_i w1 heq
-    obtain ⟨a2, hn⟩ := hA _ _ _ _ _ hrel hp.2 heq
-    simp only [Option.some.injEq] at hf
-    subst hf
-    exact ⟨_, nextR_wrap_none hs hn⟩
-  · rename_i x a'' w1 heq
-    obtain ⟨a2, hn, hsy⟩ := hA _ _ _ _ _ hrel hp.2 heq
-    have hq := force_pure hD n _ _ _ _ _ hp.2 heq
-    have hsp := step_pure hp.1 x
-    split at hf
-    · rename_i x' s' hst
-      simp only [Option.some.injEq] at hf
-      subst hf
-      exact ⟨_, nextR_wrap_emit hs hn hst, Sync.wrap s' hsy⟩
-    · rename_i s' hst
-      rw [hst] at hsp
-      have hsp' : s'.pureIdx = true := hsp
-      have hm := hA _ _ _ _ _ (Rel.sync w1 (Sync.wrap s' hsy)) (by simp [Th.pureIdx, hsp', hq]) hf
-      exact Matches.transfer (fun res h3 => nextR_wrap_drop hs hn hst h3) hm
-    · simp only [Option.some.injEq] at hf
-      subst hf
-      rename_i hst
-      exact ⟨_, nextR_wrap_stop hs hn hst⟩
-    · rename_i c ctx e hst
-      rw [hst] at hsp
-      have hsp' : c.pureIdx = true := hsp
-      obtain ⟨b, w2, hmk, hmb⟩ := hB _ _ _ _ _ hsp' hf
-      exact Matches.transfer (fun res h3 => nextR_wrap_handler hs hn hst hmk h3) hmb
-
-
-theorem krel_pure {k k' : K} (hk : KRel k k') (hp : k'.pureIdx = true) : k.pureIdx = true := by
-  cases hk with
-  | refl => exact hp
-  | idx _ _ => rfl
-
-theorem krel_mk {n : Nat} (hB : B D n) {k k' : K} (hk : KRel k k') (hkp : k'.pureIdx = true) {y w1 r2}
-    (h2 : force D n (k'.th y) w1 = some r2) :
-    ∃ c w3, MkR D (k.app y).1 (k.app y).2.1 (k.app y).2.2 w1 (c, w3) ∧ Rel D c w3 (k'.th y) w1 := by
-  cases hk with
-  | refl =>
-    obtain ⟨c, w3, hmk, _⟩ := hB _ _ _ _ _ (K.th_pure hkp y) h2
-    exact ⟨c, w3, hmk, Rel.mk hmk⟩
-  | idx hs hv => exact ⟨_, w1, mkR_ret _ _ _ _, Rel.idxS y w1 hs hv⟩
-
-theorem force_simple {i : T} {c v x} (hi : i.simple = true) (hv : simpleVal i c v = some x) (m : Nat) (w : World) :
-    force D (m + 1) (.run i c v) w = some (.yield x .nil, w) := by
-  rw [force_succ]
-  cases i <;> simp [T.simple] at hi
-  · simp only [simpleVal, Option.some.injEq] at hv; subst hv; rfl
-  · simp only [simpleVal, Option.some.injEq] at hv; subst hv; rfl
-  · simp only [simpleVal] at hv
-    simp only [forceStep, hv]
-
-theorem idxSCase {n : Nat} {i c v x y w r} (hi : i.simple = true) (hv : simpleVal i c v = some x)
-    (hf : force D n (.run (.pipe i (.idxOf y)) c v) w = some r) : Matches D r (.once (indexItem y x)) w := by
-  have h2 := force_simple (D := D) hi hv 1 w
-  cases x with
-  | ok j =>
-    have : force D 4 (.run (.pipe i (.idxOf y)) c v) w =
-        some (.yield (indexVal y j) (.app .nil (.bind .nil (.pipe (.idxOf y) c))), w) := by
-      rw [force_succ]; simp only [forceStep]
-      rw [force_succ]; simp only [forceStep, h2, Item.val?]
-      rw [force_succ]; simp only [forceStep, K.th, K.app]
-      rfl
-    have := force_det hf this
+theorem foldB_proj (hD : DPure D) {n : Nat} (hA : A D n) (hB : B D n) {xs init upd p : T} {c v w r}
+    (hxl : xs.lazySrc = true) (hpx : xs.pureIdx = true) (hpi : init.pureIdx = true)
+    (hpu : upd.pureIdx = true) (hpp : p.pureIdx = true) (hc : c.pure = true)
+    (hf : force D n (.bind (.fold .foreachP upd c [] (.run xs c v) false (.run init c v) .nil) (.proj p c)) w = some r) :
+    ∃ it w', MkR D (.fold .foreachP xs init upd p) c v w (it, w') ∧ Matches D r it w' := by
+  have hFP : FoldPure upd c (.run xs c v) (.run init c v) := ⟨hpu, hc, run_pure hpx hc, run_pure hpi hc⟩
+  have hkp : (K.proj p c).pureIdx = true := by simp [K.pureIdx, hpp, hc]
+  have hpb : (Th.bind (.fold .foreachP upd c [] (.run xs c v) false (.run init c v) .nil) (.proj p c)).pureIdx = true := by
+    simp [Th.pureIdx, K.pureIdx, hpu, hc, hpx, hpi, hpp]
+  obtain ⟨r0, h0⟩ := force_bind_head hf
+  obtain ⟨r1, h1⟩ := force_fold_ini_head h0
+  obtain ⟨a, ib, w3, hxs, hst, hmk, hcase⟩ := foldB (kind := .foreachP) (xs := xs) hB hxl hpi hc h1
+  have hsrc : SyncG D .src a (.run xs c v) := SyncG.srcFresh (fun w => ⟨3, hxs w⟩)
+  rcases hcase with ⟨hu, hrel⟩ | ⟨hu, ib', w4, hn, rfl⟩ | ⟨hu, x, ib', w4, th', hn, rfl, hdead⟩
+  · exact ⟨_, w3, mkR_fold hxs hst hmk (mkFoldInitR_slow w3 hu),
+      hA _ _ _ _ _ (Rel.flatInit (KRel.refl _) hrel) hpb hf⟩
+  · have := force_det hf (force_bind_done (k := .proj p c) (force_fold_ini_done (kind := .foreachP) (upd := upd) (ctx := c)
+      (cells := []) (src := .run xs c v) (ended := false) h1))
     subst this
-    exact ⟨.nil, nextR_once _ _, Sync.dead (dead_app dead_nil (dead_bind _ dead_nil))⟩
-  | err e =>
-    have : force D 4 (.run (.pipe i (.idxOf y)) c v) w = some (.yield (.err e) (.bind .nil (.pipe (.idxOf y) c)), w) := by
-      rw [force_succ]; simp only [forceStep]
-      rw [force_succ]; simp only [forceStep, h2, Item.val?]
-    have := force_det hf this
-    subst this
-    exact ⟨.nil, nextR_once _ _, Sync.dead (dead_bind _ dead_nil)⟩
-  | brk l =>
-    have : force D 4 (.run (.pipe i (.idxOf y)) c v) w = some (.yield (.brk l) (.bind .nil (.pipe (.idxOf y) c)), w) := by
-      rw [force_succ]; simp only [forceStep]
-      rw [force_succ]; simp only [forceStep, h2, Item.val?]
-    have := force_det hf this
-    subst this
-    exact ⟨.nil, nextR_once _ _, Sync.dead (dead_bind _ dead_nil)⟩
-  | halt l =>
-    have : force D 4 (.run (.pipe i (.idxOf y)) c v) w = some (.yield (.halt l) (.bind .nil (.pipe (.idxOf y) c)), w) := by
-      rw [force_succ]; simp only [forceStep]
-      rw [force_succ]; simp only [forceStep, h2, Item.val?]
-    have := force_det hf this
-    subst this
-    exact ⟨.nil, nextR_once _ _, Sync.dead (dead_bind _ dead_nil)⟩
-
-theorem flatInitCase (hD : DPure D) {n : Nat} (hA : A D n) (hB : B D n) {a wa a' wa' k k' r} (hk : KRel k k')
-    (hrel : Rel D a wa a' wa') (hp : (Th.bind a' k').pureIdx = true)
-    (hf : force D (n + 1) (.bind a' k') wa' = some r) : Matches D r (.flat a k .nil) wa := by
-  simp only [Th.pureIdx, Bool.and_eq_true] at hp
-  rw [force_succ] at hf
-  simp only [forceStep] at hf
-  split at hf
-  · simp at hf
-  · rename_i w1 heq
-    obtain ⟨a2, hn⟩ := hA _ _ _ _ _ hrel hp.1 heq
-    simp only [Option.some.injEq] at hf
-    subst hf
-    exact ⟨.nil, nextR_flat_srcdone k (nextR_nil wa) hn⟩
-  · rename_i x a'' w1 heq
-    obtain ⟨a2, hn, hs⟩ := hA _ _ _ _ _ hrel hp.1 heq
-    have hq := force_pure hD n _ _ _ _ _ hp.1 heq
-    split at hf
-    · rename_i y hx
-      obtain ⟨r2, h2⟩ := force_app_head hf
-      obtain ⟨c, w3, hmk, hrelc⟩ := krel_mk hB hk hp.2 h2
-      have hm := hA _ _ _ _ _ (Rel.flatRun hk hs hrelc)
-        (by simp [Th.pureIdx, K.th_pure hp.2 y, hq, hp.2]) hf
-      exact Matches.transfer (fun res h3 => nextR_flat_srcok (nextR_nil wa) hn hx hmk h3) hm
-    · rename_i hx
-      simp only [Option.some.injEq] at hf
-      subst hf
-      exact ⟨_, nextR_flat_srcexn k (nextR_nil wa) hn hx, Sync.flat0 hk hs⟩
-
-theorem flatRunCase {n : Nat} (hA : A D n) {src src' cur wc cur' wc' k k' r} (hk : KRel k k')
-    (hsrc : Sync D src src') (hcur : Rel D cur wc cur' wc') (hp : (Th.app cur' (.bind src' k')).pureIdx = true)
-    (hf : force D (n + 1) (.app cur' (.bind src' k')) wc' = some r) : Matches D r (.flat src k cur) wc := by
-  simp only [Th.pureIdx, Bool.and_eq_true] at hp
-  rw [force_succ] at hf
-  simp only [forceStep] at hf
-  split at hf
-  · simp at hf
-  · rename_i w1 heq
-    obtain ⟨cur2, hn⟩ := hA _ _ _ _ _ hcur hp.1 heq
-    have hm := hA _ _ _ _ _ (Rel.flatInit hk (Rel.sync w1 hsrc)) (by simp [Th.pureIdx, hp.2]) hf
-    exact Matches.transfer (fun res h3 => nextR_flat_cur_done hn h3) hm
-  · rename_i x c'' w1 heq
-    obtain ⟨cur2, hn, hs⟩ := hA _ _ _ _ _ hcur hp.1 heq
-    simp only [Option.some.injEq] at hf
-    subst hf
-    exact ⟨_, nextR_flat_yield src k hn, Sync.flat hk hsrc hs⟩
-
-
-/-- `flat_map_then_with` at construction: fast path (`next_if_one`) or `FlatMap` -/
-theorem flatB (hD : DPure D) {n : Nat} (hA : A D n) (hB : B D n) {l c v w k k' res} (hk : KRel k k')
-    (hl : l.pureIdx = true) (hkp : k'.pureIdx = true)
-    (hf : force D n (.bind (.run l c v) k') w = some res) :
-    ∃ a w1 it w', MkR D l c v w (a, w1) ∧ MkFlatR D a k w1 (it, w') ∧ Matches D res it w' := by
-  obtain ⟨⟨s1, w1s⟩, h1⟩ := force_bind_head hf
-  obtain ⟨a, w1, hmk, hma⟩ := hB _ _ _ _ _ hl h1
-  have hpb : (Th.bind (.run l c v) k').pureIdx = true := by simp [Th.pureIdx, hl, hkp]
-  by_cases hu : a.upper = some 1
-  · cases n with
-    | zero => simp [force] at hf
-    | succ n' =>
-      have hf0 := hf
-      rw [force_succ] at hf
-      simp only [forceStep] at hf
-      cases h1' : force D n' (.run l c v) w with
-      | none => simp [h1'] at hf
-      | some r1' =>
-        have := force_det (force_mono D _ _ _ _ h1') h1
-        subst this
-        rw [h1'] at hf
-        cases s1 with
-        | done =>
-          simp only [Option.some.injEq] at hf
-          subst hf
-          obtain ⟨a2, hn⟩ := hma
-          exact ⟨a, w1, .nil, w1s, hmk, mkFlatR_none hu hn, .nil, nextR_nil _⟩
-        | yield x th' =>
-          obtain ⟨a2, hn, hs⟩ := hma
-          have hdead : Dead D th' := by
-            obtain ⟨m, hnm⟩ := hn
-            obtain ⟨u', hu', hlt⟩ := upper_dec m hnm hu
-            have : u' = 0 := by omega
-            subst this
-            exact sync_upper0_dead hs hu'
-          have hq := force_pure hD _ (.run l c v) _ _ _ _ hl h1'
-          simp only at hf
-          split at hf
-          · rename_i y hx
-            obtain ⟨r2, h2⟩ := force_app_head hf
-            obtain ⟨it, w', hmk2, hrel2⟩ := krel_mk hB hk hkp (force_mono D _ _ _ _ h2)
-            refine ⟨a, w1, it, w', hmk, mkFlatR_ok hu hn hx hmk2, ?_⟩
-            exact hA _ _ _ _ _ (Rel.appDead hrel2 (dead_bind k' hdead))
-              (by simp [Th.pureIdx, K.th_pure hkp y, hq, hkp]) (force_mono D _ _ _ _ hf)
-          · rename_i hx
-            simp only [Option.some.injEq] at hf
-            subst hf
-            exact ⟨a, w1, .once x, w1s, hmk, mkFlatR_exn hu hn hx, .nil, nextR_once _ _,
-              Sync.dead (dead_bind k' hdead)⟩
-  · refine ⟨a, w1, .flat a k .nil, w1, hmk, mkFlatR_slow k w1 hu, ?_⟩
-    cases n with
-    | zero => simp [force] at hf
-    | succ n' =>
-      -- `A` at fuel n'+1 is not available: use the step lemma at n' with the hypotheses lowered
-      have hA' : A D n' := fun it wi th ws r hr hp h => hA it wi th ws r hr hp (force_mono D _ _ _ _ h)
-      have hB' : B D n' := fun t c v w r hp h => hB t c v w r hp (force_mono D _ _ _ _ h)
-      exact flatInitCase hD hA' hB' hk (Rel.mk hmk) hpb hf
-
-/-- a unary adapter around a freshly built iterator -/
-theorem wrapB (hD : DPure D) {n : Nat} (hA : A D n) (hB : B D n) {s : Wr} {f c' v w res} (hs : s.ready = true)
-    (hf' : f.pureIdx = true) (hsp : s.pureIdx = true)
-    (hf : force D n (.wrapC s (.run f c' v)) w = some res) :
-    ∃ a w1, MkR D f c' v w (a, w1) ∧ Matches D res (.wrap s a) w1 := by
-  obtain ⟨r1, h1⟩ := force_wrapC_head hs hf
-  obtain ⟨a, w1, hmk, _⟩ := hB _ _ _ _ _ hf' h1
-  refine ⟨a, w1, hmk, ?_⟩
-  cases n with
-  | zero => simp [force] at hf
-  | succ n' =>
-    have hA' : A D n' := fun it wi th ws r hr hp h => hA it wi th ws r hr hp (force_mono D _ _ _ _ h)
-    have hB' : B D n' := fun t c v w r hp h => hB t c v w r hp (force_mono D _ _ _ _ h)
-    exact wrapCase hD hA' hB' hs (Rel.mk hmk) (by simp [Th.pureIdx, hsp, hf']) hf
-
-
-theorem lowerA {n : Nat} (hA : A D (n + 1)) : A D n :=
-  fun it wi th ws r hr hp h => hA it wi th ws r hr hp (force_mono D _ _ _ _ h)
-theorem lowerB {n : Nat} (hB : B D (n + 1)) : B D n :=
-  fun t c v w r hp h => hB t c v w r hp (force_mono D _ _ _ _ h)
+    exact ⟨.nil, w4, mkR_fold hxs hst hmk (mkFoldInitR_none hu hn), .nil, nextR_nil _⟩
+  · cases hx : x.val? with
+    | none =>
+      have := force_det hf (force_bind_exn (k := .proj p c) (force_fold_ini_exn (kind := .foreachP) (upd := upd) (ctx := c)
+        (cells := []) (src := .run xs c v) (ended := false) h1 hx) hx)
+      subst this
+      exact ⟨.once x, w4, mkR_fold hxs hst hmk (mkFoldInitR_exn hu hn hx), .nil, nextR_once _ _,
+        SyncG.dead (dead_bind _ (dead_foldEmpty hdead))⟩
+    | some i =>
+      have hxi : x = .ok i := by cases x <;> simp [Item.val?] at hx; subst hx; rfl
+      subst hxi
+      exact ⟨_, w4, mkR_fold hxs hst hmk (mkFoldInitR_ok hu hn hx),
+        hA _ _ _ _ _ (Rel.flatInit (KRel.refl _) (Rel.foldFast hsrc ⟨_, h1⟩ hdead)) hpb hf⟩
 
 theorem stepB (hD : DPure D) {n : Nat} (hA : A D n) (hB : B D n) : B D (n + 1) := by
-  intro t c v w r hp hf
+  intro t c v w r hp hc hf
   rw [force_succ] at hf
   cases t with
   | id =>
     simp only [forceStep, Option.some.injEq] at hf; subst hf
-    exact ⟨_, w, mkR_leaf rfl, .nil, nextR_once _ _, Sync.nil⟩
+    exact ⟨_, w, mkR_leaf rfl, .nil, nextR_once _ _, SyncG.nil⟩
   | lit x =>
     simp only [forceStep, Option.some.injEq] at hf; subst hf
-    exact ⟨_, w, mkR_leaf rfl, .nil, nextR_once _ _, Sync.nil⟩
+    exact ⟨_, w, mkR_leaf rfl, .nil, nextR_once _ _, SyncG.nil⟩
   | error =>
     simp only [forceStep, Option.some.injEq] at hf; subst hf
-    exact ⟨_, w, mkR_leaf rfl, .nil, nextR_once _ _, Sync.nil⟩
+    exact ⟨_, w, mkR_leaf rfl, .nil, nextR_once _ _, SyncG.nil⟩
   | halt x =>
     simp only [forceStep, Option.some.injEq] at hf; subst hf
-    exact ⟨_, w, mkR_leaf rfl, .nil, nextR_once _ _, Sync.nil⟩
+    exact ⟨_, w, mkR_leaf rfl, .nil, nextR_once _ _, SyncG.nil⟩
   | ret x =>
     simp only [forceStep, Option.some.injEq] at hf; subst hf
-    exact ⟨_, w, mkR_leaf rfl, .nil, nextR_once _ _, Sync.nil⟩
+    exact ⟨_, w, mkR_leaf rfl, .nil, nextR_once _ _, SyncG.nil⟩
   | idxOf y =>
     simp only [forceStep, Option.some.injEq] at hf; subst hf
-    exact ⟨_, w, mkR_leaf rfl, .nil, nextR_once _ _, Sync.nil⟩
+    exact ⟨_, w, mkR_leaf rfl, .nil, nextR_once _ _, SyncG.nil⟩
   | empty =>
     simp only [forceStep, Option.some.injEq] at hf; subst hf
     exact ⟨_, w, mkR_leaf rfl, .nil, nextR_nil _⟩
@@ -362,7 +129,7 @@ theorem stepB (hD : DPure D) {n : Nat} (hA : A D n) (hB : B D n) : B D (n + 1) :
       exact ⟨.nil, w, mkR_leaf (by simp only [mkStep, hl]), .nil, nextR_nil _⟩
     | some x =>
       simp only [hl, Option.some.injEq] at hf; subst hf
-      exact ⟨.once x, w, mkR_leaf (by simp only [mkStep, hl]), .nil, nextR_once _ _, Sync.nil⟩
+      exact ⟨.once x, w, mkR_leaf (by simp only [mkStep, hl]), .nil, nextR_once _ _, SyncG.nil⟩
   | input =>
     simp only [forceStep] at hf
     cases hl : w.read with
@@ -372,52 +139,52 @@ theorem stepB (hD : DPure D) {n : Nat} (hA : A D n) (hB : B D n) : B D (n + 1) :
     | some p =>
       obtain ⟨x, w1⟩ := p
       simp only [hl, Option.some.injEq] at hf; subst hf
-      exact ⟨.once (.ok x), w1, mkR_leaf (by simp only [mkStep, hl]), .nil, nextR_once _ _, Sync.nil⟩
+      exact ⟨.once (.ok x), w1, mkR_leaf (by simp only [mkStep, hl]), .nil, nextR_once _ _, SyncG.nil⟩
   | inputs =>
     simp only [forceStep] at hf
-    exact ⟨.inputs, w, mkR_leaf rfl, hA _ _ _ _ _ (Rel.sync w Sync.inputs) rfl hf⟩
+    exact ⟨.inputs, w, mkR_leaf rfl, hA _ _ _ _ _ (Rel.sync w SyncG.inputs) rfl hf⟩
   | range a b s =>
     simp only [forceStep] at hf
-    exact ⟨_, w, mkR_leaf rfl, hA _ _ _ _ _ (Rel.sync w (Sync.range a b s)) rfl hf⟩
+    exact ⟨_, w, mkR_leaf rfl, hA _ _ _ _ _ (Rel.sync w (SyncG.range a b s)) rfl hf⟩
   | comma l r' =>
     simp only [forceStep] at hf
     simp only [T.pureIdx, Bool.and_eq_true] at hp
     obtain ⟨r1, h1⟩ := force_app_head hf
-    obtain ⟨a, w1, hmk, _⟩ := hB _ _ _ _ _ hp.1 h1
-    exact ⟨_, w1, mkR_comma r' hmk, hA _ _ _ _ _ (Rel.chain (Rel.mk hmk)) (by simp [Th.pureIdx, hp.1, hp.2]) hf⟩
+    obtain ⟨a, w1, hmk, _⟩ := hB _ _ _ _ _ hp.1 hc h1
+    exact ⟨_, w1, mkR_comma r' hmk, hA _ _ _ _ _ (Rel.chain (Rel.mk hmk)) (by simp [Th.pureIdx, hp.1, hp.2, hc]) hf⟩
   | pipe l r' =>
     simp only [forceStep] at hf
     simp only [T.pureIdx, Bool.and_eq_true] at hp
-    obtain ⟨a, w1, it, w', hmk, hfl, hm⟩ := flatB hD hA hB (KRel.refl (.pipe r' c)) hp.1 (by simpa [K.pureIdx] using hp.2) hf
+    obtain ⟨a, w1, it, w', hmk, hfl, hm⟩ := flatB hD hA hB (KRel.refl (.pipe r' c)) hp.1 hc (by simp [K.pureIdx, hp.2, hc]) hf
     exact ⟨it, w', mkR_pipe r' hmk hfl, hm⟩
   | as_ l r' =>
     simp only [forceStep] at hf
     simp only [T.pureIdx, Bool.and_eq_true] at hp
-    obtain ⟨a, w1, it, w', hmk, hfl, hm⟩ := flatB hD hA hB (KRel.refl (.as_ r' c v)) hp.1 (by simpa [K.pureIdx] using hp.2) hf
+    obtain ⟨a, w1, it, w', hmk, hfl, hm⟩ := flatB hD hA hB (KRel.refl (.as_ r' c v)) hp.1 hc (by simp [K.pureIdx, hp.2, hc]) hf
     exact ⟨it, w', mkR_as r' hmk hfl, hm⟩
   | ite l t e =>
     simp only [forceStep] at hf
     simp only [T.pureIdx, Bool.and_eq_true] at hp
-    obtain ⟨a, w1, it, w', hmk, hfl, hm⟩ := flatB hD hA hB (KRel.refl (.ite t e c v)) hp.1.1
-      (by simp [K.pureIdx, hp.1.2, hp.2]) hf
+    obtain ⟨a, w1, it, w', hmk, hfl, hm⟩ := flatB hD hA hB (KRel.refl (.ite t e c v)) hp.1.1 hc
+      (by simp [K.pureIdx, hp.1.2, hp.2, hc]) hf
     exact ⟨it, w', mkR_ite t e hmk hfl, hm⟩
   | logic stop l r' =>
     simp only [forceStep] at hf
     simp only [T.pureIdx, Bool.and_eq_true] at hp
-    obtain ⟨a, w1, it, w', hmk, hfl, hm⟩ := flatB hD hA hB (KRel.refl (.logic stop r' c v)) hp.1
-      (by simpa [K.pureIdx] using hp.2) hf
+    obtain ⟨a, w1, it, w', hmk, hfl, hm⟩ := flatB hD hA hB (KRel.refl (.logic stop r' c v)) hp.1 hc
+      (by simp [K.pureIdx, hp.2, hc]) hf
     exact ⟨it, w', mkR_logic stop r' hmk hfl, hm⟩
   | index f i =>
     simp only [forceStep] at hf
     simp only [T.pureIdx, Bool.and_eq_true] at hp
     cases hv : simpleVal i c v with
     | none =>
-      obtain ⟨a, w1, it, w', hmk, hfl, hm⟩ := flatB hD hA hB (KRel.refl (.idxR i c v)) hp.1
-        (by simpa [K.pureIdx] using hp.2) hf
+      obtain ⟨a, w1, it, w', hmk, hfl, hm⟩ := flatB hD hA hB (KRel.refl (.idxR i c v)) hp.1 hc
+        (by simp [K.pureIdx, hp.2, hc]) hf
       exact ⟨it, w', mkR_index_simple hp.2 hmk (by rw [hv]; exact hfl), hm⟩
     | some x =>
-      obtain ⟨a, w1, it, w', hmk, hfl, hm⟩ := flatB hD hA hB (KRel.idx hp.2 hv) hp.1
-        (by simpa [K.pureIdx] using hp.2) hf
+      obtain ⟨a, w1, it, w', hmk, hfl, hm⟩ := flatB hD hA hB (KRel.idx hp.2 hv) hp.1 hc
+        (by simp [K.pureIdx, hp.2, hc]) hf
       exact ⟨it, w', mkR_index_simple hp.2 hmk (by rw [hv]; exact hfl), hm⟩
   | alt l r' =>
     simp only [forceStep] at hf
@@ -431,13 +198,13 @@ theorem stepB (hD : DPure D) {n : Nat} (hA : A D n) (hB : B D n) : B D (n + 1) :
       | none => simp [h1'] at hf
       | some p =>
         obtain ⟨s1, w1s⟩ := p
-        obtain ⟨a, w1, hmk, hm⟩ := wrapB hD hA hB (s := .filt) rfl hp.1 rfl (force_mono D _ _ _ _ h1')
+        obtain ⟨a, w1, hmk, hm⟩ := wrapB hD hA hB (s := .filt) rfl hp.1 hc rfl (force_mono D _ _ _ _ h1')
         rw [h1'] at hf
         cases s1 with
         | done =>
           simp only at hf
           obtain ⟨a2, hn⟩ := hm
-          obtain ⟨b, w2, hmkr, hmb⟩ := hB _ _ _ _ _ hp.2 (force_mono D _ _ _ _ hf)
+          obtain ⟨b, w2, hmkr, hmb⟩ := hB _ _ _ _ _ hp.2 hc (force_mono D _ _ _ _ hf)
           exact ⟨b, w2, mkR_alt_none hmk hn hmkr, hmb⟩
         | yield x th' =>
           simp only [Option.some.injEq] at hf; subst hf
@@ -455,7 +222,7 @@ theorem stepB (hD : DPure D) {n : Nat} (hA : A D n) (hB : B D n) : B D (n + 1) :
       | none => simp [h1'] at hf
       | some p =>
         obtain ⟨s1, w1s⟩ := p
-        obtain ⟨a, w1, hmk, hma⟩ := hB _ _ _ _ _ hp (force_mono D _ _ _ _ h1')
+        obtain ⟨a, w1, hmk, hma⟩ := hB _ _ _ _ _ hp hc (force_mono D _ _ _ _ h1')
         rw [h1'] at hf
         cases s1 with
         | done =>
@@ -465,7 +232,7 @@ theorem stepB (hD : DPure D) {n : Nat} (hA : A D n) (hB : B D n) : B D (n + 1) :
         | yield x th' =>
           simp only [Option.some.injEq] at hf; subst hf
           obtain ⟨a2, hn, _⟩ := hma
-          exact ⟨.once x, w1s, mkR_first_some hmk hn, .nil, nextR_once _ _, Sync.nil⟩
+          exact ⟨.once x, w1s, mkR_first_some hmk hn, .nil, nextR_once _ _, SyncG.nil⟩
   | limit k f =>
     simp only [T.pureIdx] at hp
     cases k with
@@ -474,33 +241,33 @@ theorem stepB (hD : DPure D) {n : Nat} (hA : A D n) (hB : B D n) : B D (n + 1) :
       exact ⟨_, w, mkR_leaf rfl, .nil, nextR_nil _⟩
     | succ k =>
       simp only [forceStep] at hf
-      obtain ⟨a, w1, hmk, hm⟩ := wrapB hD hA hB (s := .limit (k + 1)) rfl hp rfl hf
+      obtain ⟨a, w1, hmk, hm⟩ := wrapB hD hA hB (s := .limit (k + 1)) rfl hp hc rfl hf
       exact ⟨_, w1, mkR_limit k hmk, hm⟩
   | skip k f =>
     simp only [T.pureIdx] at hp
     cases k with
     | zero =>
       simp only [forceStep] at hf
-      obtain ⟨it, w', hmk, hm⟩ := hB _ _ _ _ _ hp hf
+      obtain ⟨it, w', hmk, hm⟩ := hB _ _ _ _ _ hp hc hf
       exact ⟨it, w', mkR_skip0 hmk, hm⟩
     | succ k =>
       simp only [forceStep] at hf
-      obtain ⟨a, w1, hmk, hm⟩ := wrapB hD hA hB (s := .skip (k + 1)) rfl hp rfl hf
+      obtain ⟨a, w1, hmk, hm⟩ := wrapB hD hA hB (s := .skip (k + 1)) rfl hp hc rfl hf
       exact ⟨_, w1, mkR_skip k hmk, hm⟩
   | tryCatch f g =>
     simp only [forceStep] at hf
     simp only [T.pureIdx, Bool.and_eq_true] at hp
-    obtain ⟨a, w1, hmk, hm⟩ := wrapB hD hA hB (s := .try_ g c) rfl hp.1 (by simpa [Wr.pureIdx] using hp.2) hf
+    obtain ⟨a, w1, hmk, hm⟩ := wrapB hD hA hB (s := .try_ g c) rfl hp.1 hc (by simp [Wr.pureIdx, hp.2, hc]) hf
     exact ⟨_, w1, mkR_try g hmk, hm⟩
   | label f =>
     simp only [forceStep] at hf
     simp only [T.pureIdx] at hp
-    obtain ⟨a, w1, hmk, hm⟩ := wrapB hD hA hB (s := .label (c.labels + 1)) rfl hp rfl hf
+    obtain ⟨a, w1, hmk, hm⟩ := wrapB hD hA hB (s := .label (c.labels + 1)) rfl hp (by simpa using hc) rfl hf
     exact ⟨_, w1, mkR_label hmk, hm⟩
   | toBool f =>
     simp only [forceStep] at hf
     simp only [T.pureIdx] at hp
-    obtain ⟨a, w1, hmk, hm⟩ := wrapB hD hA hB (s := .toBool) rfl hp rfl hf
+    obtain ⟨a, w1, hmk, hm⟩ := wrapB hD hA hB (s := .toBool) rfl hp hc rfl hf
     exact ⟨_, w1, mkR_toBool hmk, hm⟩
   | call i =>
     simp only [forceStep] at hf
@@ -510,11 +277,102 @@ theorem stepB (hD : DPure D) {n : Nat} (hA : A D n) (hB : B D n) : B D (n + 1) :
       exact ⟨.nil, w, mkR_call_none hb, .nil, nextR_nil _⟩
     | some body =>
       simp only [hb] at hf
-      obtain ⟨a, w1, hmk, hm⟩ := wrapB hD hA hB (s := .stack) rfl (hD _ _ hb) rfl hf
+      obtain ⟨a, w1, hmk, hm⟩ := wrapB hD hA hB (s := .stack) rfl (hD _ _ hb) (by simp) rfl hf
       exact ⟨_, w1, mkR_call hb hmk, hm⟩
   | tcall i =>
     simp only [forceStep] at hf
-    exact ⟨_, w, mkR_tcall i c v w, hA _ _ _ _ _ (Rel.sync w (Sync.chain Sync.nil)) (by simp [Th.pureIdx, T.pureIdx]) hf⟩
+    exact ⟨_, w, mkR_tcall i c v w, hA _ _ _ _ _ (Rel.sync w (SyncG.chain SyncG.nil)) (by simp [Th.pureIdx, T.pureIdx, hc]) hf⟩
+  | fvar i =>
+    simp only [forceStep] at hf
+    cases hl : lookupFn c i with
+    | none =>
+      simp only [hl, Option.some.injEq] at hf; subst hf
+      exact ⟨.nil, w, mkR_fvar_none hl, .nil, nextR_nil _⟩
+    | some p =>
+      obtain ⟨t, env⟩ := p
+      simp only [hl] at hf
+      have hpe := lookupFn_pure hc hl
+      obtain ⟨it, w', hmk, hm⟩ := hB _ _ _ _ _ hpe.1 (by simpa using hpe.2) hf
+      exact ⟨it, w', mkR_fvar hl hmk, hm⟩
+  | callA ty i skip args =>
+    simp only [T.pureIdx] at hp
+    simp only [forceStep] at hf
+    cases hcc : callCtx c skip args v with
+    | none =>
+      simp only [hcc, Option.some.injEq] at hf; subst hf
+      exact ⟨.nil, w, mkR_callA_noctx hcc, .nil, nextR_nil _⟩
+    | some c' =>
+      have hcp := callCtx_pure hc hp hcc
+      simp only [hcc] at hf
+      cases hb : D[i]? with
+      | none =>
+        simp only [hb, Option.some.injEq] at hf; subst hf
+        exact ⟨.nil, w, mkR_callA_nodef hcc hb, .nil, nextR_nil _⟩
+      | some body =>
+        simp only [hb] at hf
+        cases ty with
+        | inline =>
+          simp only at hf
+          obtain ⟨it, w', hmk, hm⟩ := hB _ _ _ _ _ (hD _ _ hb) hcp hf
+          exact ⟨it, w', mkR_callA_inline hcc hb hmk, hm⟩
+        | catch_ =>
+          simp only at hf
+          obtain ⟨a, w1, hmk, hm⟩ := wrapB hD hA hB (s := .stack) rfl (hD _ _ hb) hcp rfl hf
+          exact ⟨_, w1, mkR_callA_catch hcc hb hmk, hm⟩
+  | tcallA i skip args =>
+    simp only [T.pureIdx] at hp
+    simp only [forceStep] at hf
+    cases hcc : callCtx c skip args v with
+    | none =>
+      simp only [hcc, Option.some.injEq] at hf; subst hf
+      exact ⟨.nil, w, mkR_tcallA_noctx hcc, .nil, nextR_nil _⟩
+    | some c' =>
+      have hcp := callCtx_pure hc hp hcc
+      simp only [hcc] at hf
+      exact ⟨_, w, mkR_tcallA hcc, hA _ _ _ _ _ (Rel.sync w (SyncG.chain SyncG.nil))
+        (by simp [Th.pureIdx, T.pureIdx, T.pureArgs, hcp]) hf⟩
+  | arr f =>
+    simp only [forceStep] at hf
+    simp only [T.pureIdx] at hp
+    cases n with
+    | zero => simp [force] at hf
+    | succ n' =>
+      rw [force_succ] at hf
+      simp only [forceStep] at hf
+      cases h1' : force D n' (.wrapC (.collect []) (.run f c v)) w with
+      | none => simp [h1'] at hf
+      | some p =>
+        obtain ⟨s1, w1s⟩ := p
+        obtain ⟨a, w1, hmk, hm⟩ := wrapB hD hA hB (s := .collect []) rfl hp hc rfl (force_mono D _ _ _ _ h1')
+        rw [h1'] at hf
+        cases s1 with
+        | done =>
+          simp only [Option.some.injEq] at hf; subst hf
+          obtain ⟨a2, hn⟩ := hm
+          exact ⟨.nil, w1s, mkR_arr_none hmk hn, .nil, nextR_nil _⟩
+        | yield x th' =>
+          simp only [Option.some.injEq] at hf; subst hf
+          obtain ⟨rest, hn, _⟩ := hm
+          exact ⟨.once x, w1s, mkR_arr_some hmk hn, .nil, nextR_once _ _, SyncG.nil⟩
+  | math op l r' =>
+    simp only [forceStep] at hf
+    simp only [T.pureIdx, Bool.and_eq_true] at hp
+    obtain ⟨a, w1, it, w', hmk, hfl, hm⟩ := flatB hD hA hB (KRel.refl (.math op r' c v)) hp.1 hc
+      (by simp [K.pureIdx, hp.2, hc]) hf
+    exact ⟨it, w', mkR_math op r' hmk hfl, hm⟩
+  | mathR op y r' =>
+    simp only [forceStep] at hf
+    simp only [T.pureIdx] at hp
+    obtain ⟨b, w1, it, w', hmk, hfl, hm⟩ := mathRB hD hA hB hp hc hf
+    exact ⟨it, w', mkR_mathR hmk hfl, hm⟩
+  | fold kind xs init upd p =>
+    simp only [T.pureIdx, Bool.and_eq_true] at hp
+    obtain ⟨⟨⟨⟨hxl, hpx⟩, hpi⟩, hpu⟩, hpp⟩ := hp
+    simp only [forceStep] at hf
+    cases kind with
+    | foreachP => exact foldB_proj hD hA hB hxl hpx hpi hpu hpp hc hf
+    | reduce => exact foldB_plain hD hA hB (by simp) hxl hpx hpi hpu hc hf
+    | foreach => exact foldB_plain hD hA hB (by simp) hxl hpx hpi hpu hc hf
 
 
 theorem stepA (hD : DPure D) {n : Nat} (hA : A D n) (hB : B D n) (hB' : B D (n + 1)) : A D (n + 1) := by
@@ -529,7 +387,7 @@ theorem stepA (hD : DPure D) {n : Nat} (hA : A D n) (hB : B D n) (hB' : B D (n +
     | once x =>
       rw [force_succ] at hf
       simp only [forceStep, Option.some.injEq] at hf; subst hf
-      exact ⟨.nil, nextR_once _ _, Sync.nil⟩
+      exact ⟨.nil, nextR_once _ _, SyncG.nil⟩
     | inputs =>
       rw [force_succ] at hf
       simp only [forceStep] at hf
@@ -540,13 +398,13 @@ theorem stepA (hD : DPure D) {n : Nat} (hA : A D n) (hB : B D n) (hB' : B D (n +
       | some p =>
         obtain ⟨x, w1⟩ := p
         simp only [hl, Option.some.injEq] at hf; subst hf
-        exact ⟨.inputs, ⟨1, by rw [next_succ]; simp only [nextStep, hl]⟩, Sync.inputs⟩
+        exact ⟨.inputs, ⟨1, by rw [next_succ]; simp only [nextStep, hl]⟩, SyncG.inputs⟩
     | range cur to by_ =>
       rw [force_succ] at hf
       simp only [forceStep] at hf
       by_cases hg : rangeGo cur to by_ = true
       · simp only [hg, if_true, Option.some.injEq] at hf; subst hf
-        exact ⟨_, ⟨1, by rw [next_succ]; simp only [nextStep, hg, if_true]⟩, Sync.range _ _ _⟩
+        exact ⟨_, ⟨1, by rw [next_succ]; simp only [nextStep, hg, if_true]⟩, SyncG.range _ _ _⟩
       · simp only [hg, Option.some.injEq] at hf
         simp only [Bool.false_eq_true, if_false, Option.some.injEq] at hf; subst hf
         exact ⟨_, 1, by rw [next_succ]; simp only [nextStep, hg]; rfl⟩
@@ -566,8 +424,19 @@ theorem stepA (hD : DPure D) {n : Nat} (hA : A D n) (hB : B D n) (hB' : B D (n +
       have := force_det hf hk
       subst this
       exact ⟨.nil, nextR_nil _⟩
+    | fold hsrc hini hstk =>
+      obtain ⟨hFP, hps⟩ := FoldPure.of hp
+      cases hstk with
+      | sNil => exact foldEmptyCase hD hA hsrc (Rel.sync _ hini) hFP hf
+      | sInp hrest => exact foldInpCase hD hA hB hsrc hini hrest hFP (by simpa [Th.pureIdx] using hps) hf
+      | sOut hys hrest =>
+        simp only [Th.pureIdx, Bool.and_eq_true] at hps
+        exact foldOutCase hD hA hsrc hini (Rel.sync _ hys) hrest hFP hps.1 hps.2 hf
+      | sDrop hd hrest =>
+        simp only [Th.pureIdx, Bool.and_eq_true] at hps
+        exact foldDropCase hA hsrc hini hrest hFP hps.2 hd hf
   | mk hmk =>
-    obtain ⟨it2, w2, hmk2, hm⟩ := hB' _ _ _ _ _ hp hf
+    obtain ⟨it2, w2, hmk2, hm⟩ := hB'.run hp hf
     have := MkR.det hmk hmk2
     simp only [Prod.mk.injEq] at this
     obtain ⟨rfl, rfl⟩ := this
@@ -578,12 +447,22 @@ theorem stepA (hD : DPure D) {n : Nat} (hA : A D n) (hB : B D n) (hB' : B D (n +
   | wrap hs hrel' => exact wrapCase hD hA hB hs hrel' hp hf
   | appDead hrel' hd => exact appDeadCase hA hrel' hd hp hf
   | idxS y w hi hv => exact idxSCase hi hv hf
+  | foldIni hsrc hrel' =>
+    obtain ⟨hFP, _⟩ := FoldPure.of hp
+    exact foldEmptyCase hD hA hsrc hrel' hFP hf
+  | foldFast hsrc hini hd =>
+    obtain ⟨hFP, _⟩ := FoldPure.of hp
+    exact foldFastCase hD hA hsrc hini hd hFP hf
+  | foldTop hsrc hini hys hrest =>
+    obtain ⟨hFP, hps⟩ := FoldPure.of hp
+    simp only [Th.pureIdx, Bool.and_eq_true] at hps
+    exact foldOutCase hD hA hsrc hini hys hrest hFP hps.1 hps.2 hf
 
 theorem simAB (hD : DPure D) : ∀ n, A D n ∧ B D n := by
   intro n
   induction n with
   | zero =>
-    exact ⟨fun it wi th ws r _ _ h => by simp [force] at h, fun t c v w r _ h => by simp [force] at h⟩
+    exact ⟨fun it wi th ws r _ _ h => by simp [force] at h, fun t c v w r _ _ h => by simp [force] at h⟩
   | succ n ih =>
     have hB' := stepB hD ih.1 ih.2
     exact ⟨stepA hD ih.1 ih.2 hB', hB'⟩
@@ -605,15 +484,15 @@ theorem take_sync (hD : DPure D) : ∀ {k th w xs w'}, TakeS D k th w xs w' → 
 
 /-- the main simulation: whatever the reference consumer of `k + 1` items obtains, the iterator
 model delivers, after construction, with the same final world -/
-theorem take_prefix_core (hD : DPure D) {t c v w k xs w'} (hp : t.pureIdx = true)
+theorem take_prefix_core (hD : DPure D) {t c v w k xs w'} (hp : t.pureIdx = true) (hc : c.pure = true)
     (h : TakeS D (k + 1) (.run t c v) w xs w') :
     ∃ m it w0, mk D m t c v w = some (it, w0) ∧ TakeI D (k + 1) it w0 xs w' := by
   cases h with
   | done hf =>
-    obtain ⟨it, w0, ⟨m, hmk⟩, it', m2, hn⟩ := (simAB hD _).2 _ _ _ _ _ hp hf
+    obtain ⟨it, w0, ⟨m, hmk⟩, it', m2, hn⟩ := (simAB hD _).2 _ _ _ _ _ hp hc hf
     exact ⟨m, it, w0, hmk, .done hn⟩
   | yield hf hrest =>
-    obtain ⟨it, w0, ⟨m, hmk⟩, it', ⟨m2, hn⟩, hs⟩ := (simAB hD _).2 _ _ _ _ _ hp hf
-    exact ⟨m, it, w0, hmk, .yield hn (take_sync hD hrest hs (force_pure hD _ (.run t c v) _ _ _ _ hp hf))⟩
+    obtain ⟨it, w0, ⟨m, hmk⟩, it', ⟨m2, hn⟩, hs⟩ := (simAB hD _).2 _ _ _ _ _ hp hc hf
+    exact ⟨m, it, w0, hmk, .yield hn (take_sync hD hrest hs (force_pure hD _ (.run t c v) _ _ _ _ (run_pure hp hc) hf))⟩
 
 end Jaq.C03
